@@ -89,7 +89,7 @@ def run(ctx):
     # exhaustive short histories: every FS op sequence of length <= depth, a load after each op
     depth = 2 if q else 3
     for h in lc.all_histories(depth, lc.FS_OPS):
-        if q and len(h) == 2 and rng.random() > 0.35:
+        if q and len(h) == 2 and rng.random() > 0.2:
             continue
         if not q and len(h) == 3 and rng.random() > 0.12:
             continue
@@ -118,7 +118,7 @@ def run(ctx):
         for variant in lc.VARIANTS:
             for en in (False, True):
                 add(variant, en, h)
-    for i in range(60 if q else 1500):
+    for i in range(40 if q else 1500):
         add(rng.choice(lc.VARIANTS), rng.random() < 0.5, random_history(rng, rng.choice([8, 15, 25, 40])))
     longest = 0
     for (variant, en), hs in sorted(groups.items()):
